@@ -100,7 +100,7 @@ func (fr *Frame) builtin(in *ssa.Call, b *ssa.Builtin) *GVal {
 		case *types.Slice:
 			return &GVal{T: fr.sliceLen(x), Typ: in.Type()}
 		case *types.Basic:
-			return &GVal{T: App("str.len", SInt, fr.term(x)), Typ: in.Type()}
+			return &GVal{T: App("gs.len", SInt, fr.term(x)), Typ: in.Type()}
 		case *types.Map:
 			return &GVal{T: w.MpSize(fr.mapTerm(x)), Typ: in.Type()}
 		case *types.Array:
